@@ -23,7 +23,7 @@ theorem encChars_length (cs : List Nat) : (encChars cs).length = 8 * cs.length :
     simp only [encChars] at ih
     omega
 
-theorem decChars_prefix_none (cs : List Nat) (h : cs.all (· < 128) = true) (n : Nat)
+theorem decChars_prefix_none (cs : List Nat) (h : cs.all (· < 256) = true) (n : Nat)
     (hn : n < (encChars cs).length) : decChars cs.length ((encChars cs).take n) = none := by
   induction cs generalizing n with
   | nil => simp [encChars] at hn
@@ -109,7 +109,7 @@ theorem dec_prefix_none (t : Ty) : ∀ (v : Val) (n : Nat), wf t v = true →
           List.take_of_length_le (by simp; omega)
         rw [e1, readN_natBits 32 _ _ h.1]
         simp only [natBits_length]
-        rw [decChars_prefix_none cs h.2 (n - 32) (by omega)]
+        rw [decChars_prefix_none cs (utf8Valid_bytes cs h.2) (n - 32) (by omega)]
     | _ => simp_all [wf]
   | arr t k ih =>
     intro v n h hn
